@@ -75,7 +75,7 @@ def run(tier, rng, C):
     v += v2
     stats = C.merge_stats(stats, st2)
     stats["samples"] = stats["samples"][:8]
-    stats["rule"] = ("request side: 14 revocation URLs (https in three letter-cases, http, ftp, ws, wss, httpss, https+x, shttp, file, single-slash https, with fragment, unbuildable 70 kB) "
+    stats["rule"] = ("request side: 33 revocation URLs (https in three letter-cases, http, ftp, ws, wss, httpss, https+x, shttp, file, single-slash https, with fragment, unbuildable 70 kB, wrapper schemes around an https URL (blob:, filesystem:, view-source:, jar:), look-alike schemes, https as userinfo / path / port 443 of an http URL) "
                      "x {access, refresh, custom without hint, custom with hints} x both auth types x secret on/off through the real revoke_token, observing insecure-URL error vs captured request and the HTTP call count; "
                      "status side: every status 100..=599 x rotating 10 bodies x 4 Content-Types + full product on 9 statuses + random RFC 7009/6749 error documents; "
                      "non-trivial = success, typed error or insecure-URL outcome")
